@@ -678,3 +678,83 @@ def great_circle(P, rep, rule="EXPR.greatcircle"):
     else:
         rep.violation(rule, "distance_between_points_at_same_depth: %s" % why, F.loc, F.qn, str(val)[:140], "expected R*acos(min(1, max(-1, cos of the central angle)))",
                       key=rule, witness="two points 135 degrees apart on the sphere")
+
+
+def conversion_paths(P, rep, rule="EXPR.conversion.paths"):
+    rep.rule(rule, "spherical_to_cartesian_coordinates(cartesian_to_spherical_coordinates(p)) == p on every path of the two functions: they are "
+                   "evaluated symbolically at representative points of all eight octants, on the coordinate planes and close to both poles "
+                   "(the branch conditions are decided at the representative), and the composed expressions are compared with p by a 40-digit "
+                   "zero test at that point and at three more points on which the recorded conditions have the same truth value; the latitude "
+                   "must lie in [-pi/2, pi/2]")
+    C2S = P.func("WorldBuilder::Utilities::cartesian_to_spherical_coordinates")
+    S2C = P.func("WorldBuilder::Utilities::spherical_to_cartesian_coordinates")
+    x, y, z = sp.symbols("x y z", real=True)
+    Q = sp.Rational
+    reps = []
+    for sx in (1, -1):
+        for sy in (1, -1):
+            for sz in (1, -1):
+                reps.append(("octant %+d%+d%+d" % (sx, sy, sz), (sx * Q(3, 7), sy * Q(11, 13), sz * Q(5, 9))))
+                reps.append(("near the %s pole, %+d%+d" % ("north" if sz > 0 else "south", sx, sy), (sx * Q(1, 1000), sy * Q(1, 700), sz * Q(5, 1))))
+                reps.append(("very near the %s pole, %+d%+d" % ("north" if sz > 0 else "south", sx, sy), (sx * Q(1, 10 ** 7), sy * Q(3, 10 ** 7), sz * Q(2, 1))))
+    reps += [("equatorial plane", (Q(2, 3), Q(-1, 5), Q(0))), ("plane y = 0", (Q(-2, 3), Q(0), Q(1, 5))), ("plane x = 0", (Q(0), Q(4, 3), Q(-1, 5)))]
+    n_ok = 0
+    seen_paths = set()
+    for label, pt0 in reps:
+        sample = {x: pt0[0], y: pt0[1], z: pt0[2], EPS: sp.Rational(1, 10 ** 300)}
+
+        def choose(cv, node, sample=sample):
+            try:
+                return bool(_at(cv, sample))
+            except Exception:
+                return None
+        V = VecEval(P, C2S, env={C2S.params[0]: (x, y, z)}, choose=choose)
+        try:
+            sph = V.run_function(astq.stmts_of(C2S.body))
+            if not (isinstance(sph, tuple) and len(sph) == 3):
+                rep.unknown(rule, "cartesian_to_spherical_coordinates does not return three components (%s)" % str(sph)[:60])
+                return
+            V2 = VecEval(P, S2C, env={S2C.params[0]: sph}, choose=choose)
+            back = V2.run_function(astq.stmts_of(S2C.body))
+        except AnalysisBroken as e:
+            rep.unknown(rule, "%s: %s" % (label, e))
+            return
+        if not (isinstance(back, tuple) and len(back) == 3):
+            rep.unknown(rule, "spherical_to_cartesian_coordinates does not return a point (%s)" % str(back)[:60])
+            return
+        trace = list(V.trace) + list(V2.trace)
+        seen_paths.add(tuple((str(cv), t) for cv, t in trace))
+        # more points of the same region: scale the representative (all conditions of these functions are homogeneous or compare ratios)
+        pts = [sample]
+        for f_ in (Q(7, 3), Q(1, 5), Q(113, 10)):
+            cand = {x: pt0[0] * f_, y: pt0[1] * f_, z: pt0[2] * f_, EPS: sample[EPS]}
+            try:
+                if all(bool(_at(cv, cand)) == t for cv, t in trace):
+                    pts.append(cand)
+            except Exception:
+                pass
+        bad = None
+        for pt in pts:
+            try:
+                vals = [_at(b_ - w_, pt) for b_, w_ in zip(back, (x, y, z))]
+                lat = _at(sph[2], pt)
+            except Exception as e:
+                rep.unknown(rule, "%s: %s" % (label, e))
+                return
+            scale = 1 + float(abs(_mp(pt[x])) + abs(_mp(pt[y])) + abs(_mp(pt[z])))
+            if any(not (abs(v_) < scale * 1e-25) for v_ in vals):
+                bad = ("the round trip gives (%s)" % ", ".join("%.6g" % float(_at(b_, pt)) for b_ in back), pt)
+                break
+            import mpmath
+            if not (-mpmath.pi / 2 - mpmath.mpf("1e-30") <= lat <= mpmath.pi / 2 + mpmath.mpf("1e-30")):
+                bad = ("the latitude is %.6g rad" % float(lat), pt)
+                break
+        if bad:
+            rep.violation(rule, "%s: for p = (%s, %s, %s) %s" % (label, bad[1][x], bad[1][y], bad[1][z], bad[0]), C2S.loc, C2S.qn, str(sph[2])[:120],
+                          "spherical_to_cartesian(cartesian_to_spherical(p)) != p on this path", key="%s|%s" % (rule, label.split(",")[0]),
+                          witness="a query point in that region")
+        else:
+            n_ok += 1
+    if n_ok == len(reps):
+        rep.ok(rule, "round trip exact on %d representatives covering %d distinct paths" % (len(reps), len(seen_paths)), C2S.loc, C2S.qn)
+    rep.floor(rule, len(reps), 20, "representative points")
